@@ -418,6 +418,47 @@ def run_one(ck, prog):
             ck.ob("C04.4", "tmalloc_large|larger-bins-searched-whenever-nothing-fitting-was-found", bool(on_vars) and all(f[2] is True for f in on_vars) and not others, fn=tl["path"], site=c4l.site(bb),
                   detail=f"the search of the larger tree bins must depend only on the walk's result (t and v null), found further conditions: {[show(f[1])[:70] if f[0] == 'truth' else (f[1], show(f[2])[:40], show(f[3])[:40]) for f in others]}")
 
+    # ---- C04.6 (realloc) a block obtained on the way through realloc is handed to the caller or given back: on every path after the
+    # non-null edge of an allocating call in Dlmalloc::realloc, the pointer is the function's result or an argument of free
+    # (an intermediate block that is neither leaks once per over-aligned reallocation that had to move)
+    rl = prog.fns.get(DL + "realloc")
+    if ck.anchor("C04.6", "Dlmalloc::realloc", rl):
+        cr = prog.ctx(rl)
+        ALLOCS = (DL + "inner_realloc", DL + "malloc", DL + "inner_malloc", DL + "memalign", DL + "calloc")
+        n_r = 0
+        for bb, t in cr.cfg.calls(lambda t: t.get("callee") in ALLOCS):
+            n_r += 1
+            dl_ = t["dst"]["l"]
+            is_it = lambda z: z[0] == "call" and z[3] == bb  # noqa: E731
+            frees = {b2 for b2, t2 in cr.cfg.calls(lambda t2: t2.get("callee") == DL + "free") if mentions(cr.args(b2)[1], cr.prov, is_it)}
+            from ..engine.dtable import enumerate_paths, path_return_value
+            lost = []
+            nn_pairs = {(ed.src, ed.dst) for sb in cr.cfg.live_blocks() if cr.cfg.term(sb)["k"] == "switch" for ed in cr.cfg.succ[sb] for f in cr.edge_facts(ed)
+                        if f[0] == "truth" and f[2] is False and isinstance(f[1], tuple) and f[1][0] == "call" and (f[1][1] or "").endswith("::is_null") and mentions(f[1], cr.prov, is_it)}
+            null_pairs = {(ed.src, ed.dst) for sb in cr.cfg.live_blocks() if cr.cfg.term(sb)["k"] == "switch" for ed in cr.cfg.succ[sb] for f in cr.edge_facts(ed)
+                          if f[0] == "truth" and f[2] is True and isinstance(f[1], tuple) and f[1][0] == "call" and (f[1][1] or "").endswith("::is_null") and mentions(f[1], cr.prov, is_it)}
+            for edges in enumerate_paths(cr, max_paths=400):
+                blocks = [0] + [ed.dst for ed in edges]
+                if bb not in blocks or any((ed.src, ed.dst) in null_pairs for ed in edges) or any(b2 in frees for b2 in blocks):
+                    continue
+                v = path_return_value(cr, edges)
+                # the value returned on this path, resolved to the definition made on the path
+                def on_path(x, depth=0):
+                    x = strip_casts(x)
+                    if isinstance(x, tuple) and x and x[0] == "call" and x[3] == bb:
+                        return True
+                    if isinstance(x, tuple) and x and x[0] == "var" and depth < 4:
+                        from ..engine.dtable import path_local_value
+                        pv = path_local_value(cr, edges, x[1])
+                        return pv is not None and on_path(pv, depth + 1)
+                    return False
+                if not on_path(v):
+                    lost.append(blocks[-1])
+            # a result that is only sometimes this block: every definition of the returned variable reachable without a free must be it
+            ck.ob("C04.6", f"realloc|block-from-{t['callee'].split('::')[-1]}@{n_r}|returned-or-freed", not lost, fn=rl["path"], site=cr.site(bb),
+                  detail="a block obtained inside realloc can reach a return on which it is neither the result nor freed")
+        ck.floor("C04.6", "allocating calls in realloc", n_r, 2)
+
     # ---- C04.5 segments not forgotten ------------------------------------------------------------------------------------------------------
     ad = prog.fns.get(DL + "add_segment")
     if ck.anchor("C04.5", "add_segment", ad):
